@@ -57,7 +57,13 @@ def gen_case(rng, tier, idx):
         if boolean:
             # a column of flags (what pattern wrappers and STDEVTHRES write): False is a reading like any other, not "no reading"
             xs = [rng.choice([True, False, False, None]) for _ in range(n)]
-        return {"kind": kind, "xs": xs, "ys": ys, "absent": absent, "k": rng.choice([-3, 1, 4, 10]), "boolean": boolean}
+        attr = (not boolean) and rng.random() < 0.25
+        if attr:
+            # the column is a candle ATTRIBUTE (volume) instead of an indicator reading: always present, and exactly 0 on dead-market
+            # candles - 0 is a reading like any other (round 9, S20-A)
+            xs = [abs(v) if v is not None else rng.choice([0, level]) for v in xs]
+            absent = []
+        return {"kind": kind, "xs": xs, "ys": ys, "absent": absent, "k": rng.choice([-3, 1, 4, 10]), "boolean": boolean, "attr": attr}
     if kind == "geometry":
         cs = []
         for _ in range(30):
@@ -98,6 +104,11 @@ def run_movement(case, stats, V):
         if i in case["absent"]:
             continue
         c.indicators = {"A": xs[i], "B": ys[i]}
+    A = "volume" if case.get("attr") else "A"
+    if case.get("attr"):
+        stats["attribute_columns"] = stats.get("attribute_columns", 0) + 1
+        for i, c in enumerate(cs):
+            c.volume = xs[i]
     X = [None if i in case["absent"] else xs[i] for i in range(n)]
     Y = [None if i in case["absent"] else ys[i] for i in range(n)]
     f2 = 2.0 ** case["k"]
@@ -105,6 +116,9 @@ def run_movement(case, stats, V):
     for i, c in enumerate(cs2):
         if i not in case["absent"]:
             c.indicators = {"A": None if xs[i] is None else xs[i] * f2, "B": None if ys[i] is None else ys[i] * f2}
+    if case.get("attr"):
+        for i, c in enumerate(cs2):
+            c.volume = xs[i] * f2
     one = [("rising", movement.rising, R.rising), ("falling", movement.falling, R.falling), ("mean_rising", movement.mean_rising, R.mean_rising),
            ("mean_falling", movement.mean_falling, R.mean_falling), ("highest", movement.highest, R.highest), ("lowest", movement.lowest, R.lowest),
            ("highestbar", movement.highestbar, R.highestbar), ("lowestbar", movement.lowestbar, R.lowestbar), ("value_range", movement.value_range, R.value_range)]
@@ -118,7 +132,7 @@ def run_movement(case, stats, V):
                 continue
             for ln in LENGTHS:
                 for name, f, ref in (("highest", movement.highest, R.highest), ("lowest", movement.lowest, R.lowest)):
-                    got = f(cs, "A", ln, **ikw)
+                    got = f(cs, A, ln, **ikw)
                     w_ = [v for v in X[max(0, ii - ln):ii + 1] if v is not None]  # the current candle and the `length` before it
                     adm = {(max(w_) if name == "highest" else min(w_)) if w_ else None}
                     stats["movement_evaluations"] = stats.get("movement_evaluations", 0) + 1
@@ -131,24 +145,24 @@ def run_movement(case, stats, V):
         if ii < 1:
             continue
         for name, f, ref in (("above", movement.above, R.above), ("below", movement.below, R.below)):
-            got = f(cs, "A", "B", **ikw)
+            got = f(cs, A, "B", **ikw)
             stats["movement_evaluations"] = stats.get("movement_evaluations", 0) + 1
             if not any(same(got, w) for w in ref(X, Y, ii)):
                 V("reference-predicate", f"C17|{name}", f"{name}(A,B) at {i} of {n}: got {got!r}, documented {ref(X, Y, ii)}; A={X[ii]} B={Y[ii]}")
         for ln in LENGTHS:
             for name, f, ref in one:
-                got = f(cs, "A", ln, **ikw)
+                got = f(cs, A, ln, **ikw)
                 adm = ref(X, ii, ln)
                 stats["movement_evaluations"] = stats.get("movement_evaluations", 0) + 1
                 if not any(same(got, w) for w in adm):
                     V("reference-predicate", f"C17|{name}", f"{name}(A, length={ln}) at {i} of {n}: got {got!r}, documented {sorted(adm, key=repr)}; window {X[max(0, ii - ln - 1):ii + 1]}")
-                g2 = f(cs2, "A", ln, **ikw)
+                g2 = f(cs2, A, ln, **ikw)
                 want2 = got * f2 if (name in ("highest", "lowest", "value_range") and isinstance(got, (int, float)) and not isinstance(got, bool)) else got
                 stats["invariance_checks"] = stats.get("invariance_checks", 0) + 1
                 if not same(g2, want2) and not (isinstance(g2, (int, float)) and isinstance(want2, (int, float)) and g2 == want2):
                     V("scale-invariance", f"C17|scale|{name}", f"{name}(A, length={ln}) at {i}: {got!r} but {g2!r} after multiplying every reading by 2^{case['k']}")
             for name, f, ref in two:
-                got = f(cs, "A", "B", ln, **ikw)
+                got = f(cs, A, "B", ln, **ikw)
                 adm = ref(X, Y, ii, ln)
                 stats["movement_evaluations"] = stats.get("movement_evaluations", 0) + 1
                 if not any(same(got, w) for w in adm):
